@@ -10,9 +10,20 @@ uint32_t __verif_j;
 
 #include "nanoisa/nvm_format.c"
 
+/* witness mode: concrete small file as named input (bounded search for a replayable input) */
+struct in_data_s { uint8_t b[96]; } in_data; uint32_t in_size;
+struct in_data_s nondet_data(void);
+
 void h_deser(void)
 {
     const uint8_t *data; uint32_t size;
+#ifdef VERIF_WITNESS
+    in_data = nondet_data(); in_size = nondet_u32();
+    __CPROVER_assume(in_size <= sizeof(in_data.b));
+    uint8_t *wd = malloc(in_size); __CPROVER_assume(wd);
+    memcpy(wd, in_data.b, in_size);
+    data = wd; size = in_size;
+#endif
     NvmModule *m = nvm_deserialize(data, size);
     VERIF_COVER(m == NULL);
     VERIF_COVER(m != NULL);
